@@ -92,6 +92,11 @@ func init() {
 			runRandomScenarios(w, []string{"C03"}, w.Pick(10, 50), func(p *ledger.Profile) { p.PReplay = 0.3; p.PConcurrent = 0.12 }, c03SyncReplay)
 			c03Concurrent(w)
 			c03Truncation(w)
+			if w.Batch == 3 {
+				// a truncation over a wallet whose summed inflow does not fit 64 bits must still leave every vertex in
+				// exactly one place (live or checkpointed)
+				c07GrossOverflow(w, []string{"C03"})
+			}
 		},
 	})
 	core.Register(&core.Check{
